@@ -52,6 +52,14 @@ def mk_data(kind, content, root, offset=0):
     raise ValueError(kind)
 
 
+def tmp_input(root, content, name="in.bin"):
+    """A path-string data argument (the kind every version of the code accepts)."""
+    p = os.path.join(root, name)
+    with open(p, "wb") as fh:
+        fh.write(content)
+    return p
+
+
 def outcome(f, *a, **k):
     try:
         return ("return", f(*a, **k))
@@ -87,11 +95,11 @@ def o_store_roundtrip(p, cfg):
 def o_digest_keys_independent(p, cfg):
     """C02: the key set of a store_object result does not depend on earlier calls."""
     store, props, root = new_store(cfg)
-    d1, _ = mk_data("BytesIO", b"first", root)
     first = dict(p.get("first", {}))
-    out1 = outcome(store.store_object, "pid-a", d1, **first)
-    d2, _ = mk_data("BytesIO", b"second", root)
-    out2 = outcome(store.store_object, "pid-b", d2)
+    out1 = outcome(store.store_object, "pid-a", tmp_input(root, b"first", "a.bin"), **first)
+    if out1[0] != "return":
+        return None, f"first store raised {out1[1]}: {out1[2]}"
+    out2 = outcome(store.store_object, "pid-b", tmp_input(root, b"second", "b.bin"))
     if out2[0] != "return":
         return True, f"second store raised {out2[1]}"
     keys = set(out2[1].hex_digests)
@@ -104,17 +112,18 @@ def o_digest_keys_independent(p, cfg):
     return False, "key set independent of history"
 
 
-def build_state(store, state, pid, content, cfg_alg):
+def build_state(store, state, pid, content, cfg_alg, root=None):
     """Bring `pid` into one of the reference conditions the public API can create."""
     cid = hashlib.new(cfg_alg, content).hexdigest()
     if state == "unbound":
         return cid
+    root = root or os.path.dirname(store.root)
     if state == "bound":
-        store.store_object(pid, io.BytesIO(content))
+        store.store_object(pid, tmp_input(root, content))
         return cid
     if state == "bound-shared":
-        store.store_object(pid, io.BytesIO(content))
-        store.store_object(pid + "-other", io.BytesIO(content))
+        store.store_object(pid, tmp_input(root, content))
+        store.store_object(pid + "-other", tmp_input(root, content))
         return cid
     if state == "object-missing":      # tag_object on a cid that was never stored
         store.tag_object(pid, cid)
@@ -148,7 +157,7 @@ def o_valid_not_deleted(p, cfg):
     """C06: a correct checksum in any case / algorithm spelling never deletes or rejects."""
     store, props, root = new_store(cfg)
     content = b"validate me"
-    om = store.store_object(data=io.BytesIO(content))
+    om = store.store_object(data=tmp_input(root, content))
     algo = p.get("algorithm", "sha3_256")
     hl = algo.lower().replace("-", "_") if "3" in algo and "sha3" in algo.lower() else \
         algo.lower().replace("-", "").replace("_", "")
@@ -209,7 +218,7 @@ def o_metadata_exclusion(p, cfg):
     delete_metadata(pid, format) on the same document must wait."""
     store, props, root = new_store(cfg)
     pid, fmt = "pid-1", "fmt-a"
-    store.store_metadata(pid, io.BytesIO(b"<doc/>"), fmt)
+    store.store_metadata(pid, tmp_input(root, b"<doc/>"), fmt)
     doc = store._computehash(pid + fmt)
     lst = store.metadata_locked_docs_mp if store.use_multiprocessing else store.metadata_locked_docs_th
     cond = store.metadata_condition_mp if store.use_multiprocessing else store.metadata_condition_th
@@ -242,7 +251,7 @@ def main():
     cfg = sc.get("config", {})
     try:
         rep, obs = ORACLES[sc["oracle"]](sc.get("params", {}), cfg)
-        print(json.dumps({"reproduced": bool(rep), "observed": obs}))
+        print(json.dumps({"reproduced": None if rep is None else bool(rep), "observed": obs}))
     except Exception:
         print(json.dumps({"reproduced": None, "observed": "driver error: " + traceback.format_exc()[-800:]}))
     finally:
